@@ -258,6 +258,28 @@ fn mutations(t: &Tlv) -> Vec<(String, Vec<u8>)> {
             out.push((format!("duplicated@{}", name), ber::encode(&m)));
         }
     }
+    // identifier-octet rewrites: every (class, constructed bit, tag number) combination on every node
+    for p in &paths {
+        let node = get(t, p);
+        let name = format!("{:?}", p);
+        for c in 0..4u8 {
+            for flip in [false, true] {
+                for tag in [0u32, 1, 2, 3, 4, 5, 7, 10, 11, 16, 17, 19, 24, 25, 30] {
+                    if c == node.class && !flip && tag == node.tag {
+                        continue;
+                    }
+                    let mut m = t.clone();
+                    {
+                        let n = get_mut(&mut m, p);
+                        n.class = c;
+                        n.tag = tag;
+                    }
+                    let b = if flip { enc_with(&m, p, &Lie::FlipConstructed) } else { ber::encode(&m) };
+                    out.push((format!("ident(c{},t{},flip{})@{}", c, tag, flip, name), b));
+                }
+            }
+        }
+    }
     // whole-frame truncation at every byte
     let whole = ber::encode(t);
     for k in 1..whole.len() {
@@ -290,6 +312,38 @@ fn pool(id: i64) -> Vec<(String, Msg)> {
         }
     }
     v
+}
+
+/// inject `bytes` while client 0 waits (compare or next() of a search on ID 1); run to a fixpoint
+fn drive_pair(bytes: &[u8], pending_search: bool) -> crate::e1::model::Outcome {
+    let mut s = Scenario::new("C11/pair");
+    let victim = if pending_search {
+        ClientSpec { script: vec![Call::Start { marker: "v".into(), chain: Chain::Direct, timeout: None, ctrl: false, opts: false, own_paging: false }, Call::Next], free: 0 }
+    } else {
+        ClientSpec { script: vec![Call::Single { kind: OpKind::Compare, marker: "v".into(), timeout: None, ctrl: false }], free: 0 }
+    };
+    s.clients = vec![victim];
+    s.plans.insert("v".into(), Plan { silent: true, rc: 6, ..Default::default() });
+    s.raw_inject = Some(bytes.to_vec());
+    s.oracles = Oracles::default();
+    let mut path: Vec<Action> = if pending_search {
+        vec![Action::Do(0), Action::PollD(1), Action::PollC(0), Action::Do(0), Action::Inject, Action::PollD(3)]
+    } else {
+        vec![Action::Do(0), Action::PollD(1), Action::Inject, Action::PollD(3)]
+    };
+    let scn = Arc::new(s);
+    let mut o = run_path(&scn, &path, false);
+    for _ in 0..8 {
+        let next = o.enabled.iter().find(|a| matches!(a, Action::PollC(_) | Action::PollD(_))).cloned();
+        match next {
+            Some(a) => {
+                path.push(a);
+                o = run_path(&scn, &path, false);
+            }
+            None => break,
+        }
+    }
+    o
 }
 
 /// run the bytes through the real driver with a single op pending on `id`, or a search pending on it
@@ -419,12 +473,50 @@ pub fn run(tier: Tier) -> i32 {
         let (label, b, _search_item) = &muts[i as usize];
         judge_decode(&rep, b, "mutation", &evals, &complete);
         // the driver lane: quick runs a third of the mutants (every mutant of every third node), thorough all
-        if i % stride == 0 || label.ends_with("unmutated") {
+        let ident = label.contains(":ident(");
+        let result_msg = label.starts_with("done/") || label.starts_with("bind/noctl");
+        let run_driver = if ident { result_msg && (tier == Tier::Thorough || label.starts_with("done/noctl") || i % 5 == 0) } else { i % stride == 0 };
+        if run_driver || label.ends_with("unmutated") {
             through_driver(&rep, label, b, false, &evals);
             through_driver(&rep, label, b, true, &evals);
             driver_runs.fetch_add(2, Ordering::Relaxed);
         }
     });
+    // ---- b'. two complete frames in one read: a frame nobody waits for (ID 0 notification, an
+    // unused ID) directly followed by the genuine response; the pending operation must get it
+    let pair_runs = AtomicU64::new(0);
+    {
+        let firsts: Vec<(String, Vec<u8>)> = vec![
+            ("notice-of-disconnection(id0)".into(), Msg { id: 0, op: Op::ExtResp(Res::new(52, "", "bye"), Some(b"1.3.6.1.4.1.1466.20036".to_vec()), None), controls: None }.encode()),
+            ("id0-with-controls".into(), Msg { id: 0, op: Op::ExtResp(Res::new(0, "", ""), None, None), controls: Some(vec![Ctl { oid: b"1.2".to_vec(), crit: None, val: None }]) }.encode()),
+            ("unused-id-777".into(), Msg { id: 777, op: Op::BindResp(Res::new(0, "", "other"), None), controls: None }.encode()),
+            ("entry-for-unused-id".into(), Msg { id: 778, op: Op::SearchEntry { dn: b"cn=z".to_vec(), attrs: vec![] }, controls: None }.encode()),
+        ];
+        for (name, first) in &firsts {
+            for pending_search in [false, true] {
+                let genuine = if pending_search {
+                    Msg { id: 1, op: Op::SearchEntry { dn: b"v#0".to_vec(), attrs: vec![] }, controls: None }.encode()
+                } else {
+                    Msg { id: 1, op: Op::CompareResp(Res::new(6, "id=1", "v")), controls: None }.encode()
+                };
+                let mut bytes = first.clone();
+                bytes.extend_from_slice(&genuine);
+                pair_runs.fetch_add(1, Ordering::Relaxed);
+                evals.fetch_add(1, Ordering::Relaxed);
+                let o = drive_pair(&bytes, pending_search);
+                let replay = json!({"engine":"c11","lane":"pair","hex":ber::hex(&bytes),"first":name});
+                if o.driver.starts_with("panicked") {
+                    rep.violation(&format!("driver:panic:{}", panic_site(&o.driver)), &format!("[pair {}] drive() panicked: {}", name, o.driver), replay);
+                } else if o.pending.contains(&0) {
+                    rep.violation(
+                        "driver:complete-frame-held-back",
+                        &format!("[pair {} + genuine response, search pending: {}] both frames arrived completely in one read, yet the waiting operation was not served (driver {})", name, pending_search, o.driver),
+                        replay,
+                    );
+                }
+            }
+        }
+    }
     // ---- c. nesting depth (child process, 2 MiB-stack thread like a tokio worker)
     let mut depth_results = vec![];
     for depth in [10usize, 100, 1000, 10_000, 100_000, 250_000] {
@@ -457,6 +549,7 @@ pub fn run(tier: Tier) -> i32 {
         ("envelope_shaped", json!(env_total)),
         ("mutants", json!(nm)),
         ("driver_runs", json!(driver_runs.load(Ordering::Relaxed))),
+        ("frame_pair_runs", json!(pair_runs.load(Ordering::Relaxed))),
         ("depth_runs", json!(depth_results)),
         ("samples", json!(["3000", ber::hex(&muts[muts.len() / 3].1), muts[muts.len() / 3].0])),
         ("exhaustive", json!(true)),
